@@ -614,7 +614,27 @@ func execPhase(base *world.World, tag string, phase int, steps []seqStep, storeK
 			hung := false
 			heldNote := ""
 			panicked := false
-			if fl != nil && s.Hold != "" {
+			if fl != nil && s.Hold == "before" {
+				// the caller's context has already ended when the request reaches the witness (a dropped stream, an expired per-cycle deadline)
+				cctx, cancel := context.WithCancel(ctx)
+				cancel()
+				done := make(chan struct{})
+				go func() {
+					defer func() {
+						if r := recover(); r != nil {
+							ret, uerr, panicked = nil, fmt.Errorf("recovered: %v", r), true
+						}
+						close(done)
+					}()
+					ret, uerr = wit.Update(cctx, c.LogID, c.OldSize, c.CP, c.Proof)
+				}()
+				select {
+				case <-done:
+				case <-time.After(20 * time.Second):
+					hung = true
+				}
+				heldNote = " ctx had ended before the call"
+			} else if fl != nil && s.Hold != "" {
 				cctx, cancel := context.WithCancel(ctx)
 				reached, release := fl.armHold(s.Hold)
 				done := make(chan struct{})
